@@ -93,24 +93,17 @@ static void usage (char *s)
 static void get_ftype (char const *const name,
 											 int *ftype)
 {
-	char buff[4096],*argv[128];
-	int argc;
+	/* the format follows from the end of the name alone (".lp", optionally
+	 * followed by ".gz" or ".bz2"): blanks, dots or bytes above 127 elsewhere in
+	 * the name are of no concern */
+	size_t len = strlen (name);
 	*ftype = 0; /* by default, file is MPS */
-	snprintf(buff,4096,"%s",name);
-	EGioNParse(buff,128,"."," ",&argc,argv);
-	argc-=1;
-	if(argc)
-	{
-		if(strncmp(argv[argc],"gz",3)==0) argc-=1;
-		else if(strncmp(argv[argc],"GZ",3)==0) argc-=1;
-		else if(strncmp(argv[argc],"bz2",4)==0) argc-=1;
-		else if(strncmp(argv[argc],"BZ2",4)==0) argc-=1;
-	}
-	if(argc)
-	{
-		if(strncmp(argv[argc],"lp",3)==0) *ftype=1;
-		else if(strncmp(argv[argc],"LP",3)==0) *ftype=1;
-	}
+	if (len > 3 && (strcmp (name + len - 3, ".gz") == 0 || strcmp (name + len - 3, ".GZ") == 0))
+		len -= 3;
+	else if (len > 4 && (strcmp (name + len - 4, ".bz2") == 0 || strcmp (name + len - 4, ".BZ2") == 0))
+		len -= 4;
+	if (len > 3 && (strncmp (name + len - 3, ".lp", 3) == 0 || strncmp (name + len - 3, ".LP", 3) == 0))
+		*ftype = 1;
 }
 /* ========================================================================= */
 /** @brief signal handler for time-limit reached */
